@@ -1,4 +1,4 @@
-(* regenerated on every run by harness/cmd/translate (claimable) from core/task/task.go IsClaimable:
+(* regenerated on every run by harness/cmd/translate (claimable) from core/task IsClaimable:
    ((locked, status is ACTIVE), state (0 STANDBY 1 CONFIGURED 2 RUNNING 3 ERROR 9 other), claimable) *)
 From Coq Require Import List NArith.
 Import ListNotations.
